@@ -1699,3 +1699,167 @@ func ruleStructOverwrite(c *Ctx, r *Report, scope func(*ssa.Function) bool) int 
 	}
 	return n
 }
+
+// ruleDescriptorSizeBytes (DEP): the number of bytes writeDescriptorSize writes for a descriptor's size field is
+// decided by the sizeFieldSizeMinus1 it is given, which is what every SizeSize() counts: no loop or branch in it that
+// decides how many bytes are written depends on the size value itself.
+func ruleDescriptorSizeBytes(c *Ctx, r *Report) {
+	f := c.ssaFunc(r, "DEP", "mp4", "writeDescriptorSize")
+	if f == nil {
+		return
+	}
+	key := "mp4.writeDescriptorSize:size-bytes-from-sizeFieldSizeMinus1"
+	var sizePar *ssa.Parameter
+	for _, p := range f.Params {
+		if p.Name() == "size" {
+			sizePar = p
+		}
+	}
+	if sizePar == nil {
+		r.Undecided("DEP", key, c.Pos(f.Pos()), "no parameter named size")
+		return
+	}
+	// loops: the exit tests must not depend on size
+	n := 0
+	for _, l := range naturalLoops(f) {
+		for b := range l.blocks {
+			if len(b.Instrs) == 0 {
+				continue
+			}
+			ifi, ok := b.Instrs[len(b.Instrs)-1].(*ssa.If)
+			if !ok {
+				continue
+			}
+			exits := !l.blocks[b.Succs[0]] || !l.blocks[b.Succs[1]]
+			if !exits {
+				continue
+			}
+			n++
+			for k := range backSlice(c, ifi.Cond, 0) {
+				if k.kind == "param" && k.name == "size" {
+					r.Bad("DEP", key, c.Pos(ifi.Pos()), "a loop in writeDescriptorSize runs as long as a condition on the size value holds: the number of size bytes written no longer equals sizeFieldSizeMinus1+1, which SizeSize() counts")
+					return
+				}
+			}
+		}
+	}
+	if n == 0 {
+		r.Undecided("DEP", key, c.Pos(f.Pos()), "no loop found")
+		return
+	}
+	r.OK("DEP", key, c.Pos(f.Pos()), fmt.Sprintf("%d loop exit tests, none depends on the size value", n))
+}
+
+// ruleASCRejections (W-REJ): DecodeAudioSpecificConfig rejects a configuration only because of a reader error, the
+// object type, or a frequency lookup — the things AudioSpecificConfig.Encode validates or cannot produce. Every other
+// field Encode writes unconditionally (channel configuration 0..15) is accepted, so that what Encode writes decodes.
+func ruleASCRejections(c *Ctx, r *Report) {
+	f := c.ssaFunc(r, "W-REJ", "aac", "DecodeAudioSpecificConfig")
+	if f == nil {
+		return
+	}
+	key := "aac.DecodeAudioSpecificConfig:rejections"
+	n := 0
+	for _, b := range f.Blocks {
+		if len(b.Instrs) == 0 {
+			continue
+		}
+		ifi, ok := b.Instrs[len(b.Instrs)-1].(*ssa.If)
+		if !ok {
+			continue
+		}
+		if blockRejects(b.Succs[0]) == blockRejects(b.Succs[1]) {
+			continue
+		}
+		n++
+		if isErrorTest(ifi.Cond) {
+			continue
+		}
+		okDep := false
+		sl := backSlice(c, ifi.Cond, 1)
+		if sliceHas(sl, "call", "getFrequency") || sliceHas(sl, "call", "AccError") {
+			okDep = true
+		}
+		// the object type: a 5-bit read
+		var walk func(v ssa.Value, d int)
+		seen := map[ssa.Value]bool{}
+		walk = func(v ssa.Value, d int) {
+			if d > 6 || seen[v] {
+				return
+			}
+			seen[v] = true
+			switch x := v.(type) {
+			case *ssa.Call:
+				if cal := x.Call.StaticCallee(); cal != nil && cal.Name() == "Read" && len(x.Call.Args) == 2 {
+					if cs, ok := constSet(x.Call.Args[1], 0); ok && len(cs) == 1 && cs[0] == 5 {
+						okDep = true
+					}
+				}
+			case *ssa.BinOp:
+				walk(x.X, d+1)
+				walk(x.Y, d+1)
+			case *ssa.Convert:
+				walk(x.X, d+1)
+			case *ssa.Phi:
+				for _, e := range x.Edges {
+					walk(e, d+1)
+				}
+			case *ssa.UnOp:
+				walk(x.X, d+1)
+			case *ssa.Extract:
+				walk(x.Tuple, d+1)
+			}
+		}
+		walk(ifi.Cond, 0)
+		if !okDep {
+			r.Bad("W-REJ", key, c.Pos(ifi.Pos()), "the decoder rejects on a value that is neither a reader error, the object type nor a frequency lookup: AudioSpecificConfig.Encode writes that field unconditionally, so some of its output cannot be decoded")
+			return
+		}
+	}
+	if n == 0 {
+		r.Undecided("W-REJ", key, c.Pos(f.Pos()), "no rejecting branch found")
+		return
+	}
+	r.OK("W-REJ", key, c.Pos(f.Pos()), fmt.Sprintf("%d rejecting branches: reader errors, object type and frequency lookups only", n))
+}
+
+// ruleEveryCycleAppends (O-EVERY): in function fn every cycle of the loop around the appends to field typeField passes
+// one of them (one entry per iteration: no `continue` goes round the append).
+func ruleEveryCycleAppends(c *Ctx, r *Report, pkg, fn, typeField, what string) {
+	f := c.ssaFunc(r, "O-EVERY", pkg, fn)
+	if f == nil {
+		return
+	}
+	key := fmt.Sprintf("%s.%s:every-iteration-appends-%s", pkg, fn, typeField)
+	avoid := map[*ssa.BasicBlock]bool{}
+	var first *ssa.Store
+	for _, st := range storesTo(f, typeField) {
+		if call, ok := st.Val.(*ssa.Call); ok {
+			if bi, ok := call.Call.Value.(*ssa.Builtin); ok && bi.Name() == "append" {
+				avoid[st.Block()] = true
+				if first == nil {
+					first = st
+				}
+			}
+		}
+	}
+	if first == nil {
+		r.Undecided("O-EVERY", key, c.Pos(f.Pos()), "no append to "+typeField+" found")
+		return
+	}
+	var outer *loopInfo
+	for _, l := range naturalLoops(f) {
+		if l.blocks[first.Block()] && (outer == nil || len(l.blocks) > len(outer.blocks)) {
+			outer = l
+		}
+	}
+	if outer == nil {
+		r.Undecided("O-EVERY", key, c.Pos(f.Pos()), "the append is not inside a loop")
+		return
+	}
+	if via := cycleAvoidingBlocks(outer, avoid); via != nil {
+		r.Bad("O-EVERY", key, c.Pos(firstPos(via)), "an iteration of the loop can go round the append to "+typeField+": "+what)
+	} else {
+		r.OK("O-EVERY", key, c.Pos(first.Pos()), "every cycle of the loop appends one entry")
+	}
+}
